@@ -265,4 +265,90 @@ inductive Chain.Reach (c0 : Chain) : Chain → Prop
   | init : Chain.Reach c0 c0
   | step {c c' : Chain} {t : Nat} : Chain.Reach c0 c → c.step t = some c' → Chain.Reach c0 c'
 
+/-! ## Stream (util/stream/stream.hh)
+
+A `Stream` iterates over the records of the blocks its `Link` receives.  The blocking behaviour of the `Link` is
+covered by the Chain model; here the `Link` is seen sequentially: the current block (`none` = poison; a block =
+the list of its valid records, `ValidSize = entry_size * length`), the blocks still to come (the input ends with
+the poison), and what has been passed downstream. -/
+
+structure SLink where
+  cur      : Option (List Nat)
+  rest     : List (List Nat)
+  passed   : List (Option (List Nat))
+  poisoned : Bool
+  deriving Repr, DecidableEq
+
+/-- `Link::Init`: the first `Consume` -/
+def SLink.init : List (List Nat) → SLink
+  | [] => { cur := none, rest := [], passed := [], poisoned := false }
+  | b :: r => { cur := some b, rest := r, passed := [], poisoned := false }
+
+/-- `Link::operator++` (on a non-poison block): pass the block on, take the next; the end of the input is the
+poison, which is forwarded at once (`poisoned_ = true`) -/
+def SLink.inc (l : SLink) : SLink :=
+  match l.rest with
+  | [] => { cur := none, rest := [], passed := l.passed ++ [l.cur, none], poisoned := true }
+  | b :: r => { cur := some b, rest := r, passed := l.passed ++ [l.cur], poisoned := l.poisoned }
+
+/-- `Link::~Link`: forward the poison unless it has been forwarded -/
+def SLink.finish (l : SLink) : List (Option (List Nat)) :=
+  if l.poisoned then l.passed else l.passed ++ [none]
+
+structure Stream where
+  link : SLink
+  /-- `(current_ - block start) / entry_size` and `(end_ - block start) / entry_size` -/
+  pos  : Nat
+  endp : Nat
+  /-- `current_ == NULL` -/
+  null : Bool
+  deriving Repr, DecidableEq
+
+/-- `for (; block_it_ && !block_it_->ValidSize(); ++block_it_) {}` — skips ALL empty blocks -/
+def skipEmpty : Option (List Nat) → List (List Nat) → List (Option (List Nat)) → Bool → SLink
+  | some [], b :: r, passed, p => skipEmpty (some b) r (passed ++ [some []]) p
+  | some [], [], passed, _ => { cur := none, rest := [], passed := passed ++ [some [], none], poisoned := true }
+  | cur, rest, passed, p => { cur := cur, rest := rest, passed := passed, poisoned := p }
+
+/-- `Stream::StartBlock` -/
+def startBlock (l : SLink) : Stream :=
+  let l' := skipEmpty l.cur l.rest l.passed l.poisoned
+  match l'.cur with
+  | none => { link := l', pos := 0, endp := 0, null := true }
+  | some b => { link := l', pos := 0, endp := b.length, null := false }
+
+/-- `StartBlock` of the change seeded as C17-4: `if (block_it_ && !block_it_->ValidSize()) ++block_it_;` -/
+def startBlockOnce (l : SLink) : Stream :=
+  let l' := match l.cur with
+    | some [] => l.inc
+    | _ => l
+  match l'.cur with
+  | none => { link := l', pos := 0, endp := 0, null := true }
+  | some b => { link := l', pos := 0, endp := b.length, null := false }
+
+def Stream.init (blocks : List (List Nat)) : Stream := startBlock (SLink.init blocks)
+
+/-- `*stream`: the record at `current_`; `none` = a read beyond `ValidSize` (or through NULL) -/
+def Stream.get (s : Stream) : Option Nat :=
+  match s.link.cur with
+  | some b => b[s.pos]?
+  | none => none
+
+/-- `Stream::operator++` with the given `StartBlock` -/
+def Stream.incWith (sb : SLink → Stream) (s : Stream) : Stream :=
+  if s.pos + 1 = s.endp then sb s.link.inc else { s with pos := s.pos + 1 }
+
+def Stream.inc (s : Stream) : Stream := s.incWith startBlock
+
+/-- `for (Stream s(position); s; ++s) yield(*s)` with at most `fuel` iterations -/
+def Stream.collectWith (sb : SLink → Stream) : Nat → Stream → List (Option Nat) × Stream
+  | 0, s => ([], s)
+  | f + 1, s =>
+    if s.null then ([], s)
+    else
+      let r := Stream.collectWith sb f (s.incWith sb)
+      (s.get :: r.1, r.2)
+
+def Stream.collect (fuel : Nat) (s : Stream) : List (Option Nat) × Stream := Stream.collectWith startBlock fuel s
+
 end KV.Chain
